@@ -24,6 +24,9 @@ Definition field_name_eqb (a b : field_name) : bool :=
   | _, _ => false
   end.
 
+Definition field_name_str (f : field_name) : string :=
+  match f with FIdent s _ => s | FIndex n => N_to_string n end.
+
 (* FieldOperation *)
 Inductive fop :=
 | ODeref (count : nat) (sp : span)
